@@ -531,7 +531,7 @@ class ClusterSim:
         return evs
 
 
-def simulate(job, cluster: list[dict], chooser: Chooser, inject_failure_at: int | None = None, slow_data: bool = False) -> dict:
+def simulate(job, cluster: list[dict], chooser: Chooser, inject_failure_at: int | None = None, slow_data: bool = False, pre=None) -> dict:
     """Runs the real controller against the simulated cluster. Returns a result dict; never raises for what the code under test does."""
     sim = ClusterSim(job, cluster, chooser, inject_failure_at, slow_data=slow_data)
     _CUR["sim"] = sim
@@ -540,7 +540,9 @@ def simulate(job, cluster: list[dict], chooser: Chooser, inject_failure_at: int 
     try:
         sim.start_workers()
         try:
-            pre = precompute(job)
+            if pre is None:
+                pre = precompute(job)
+            res["pre"] = pre
             res["state"] = impl.run(job, sim, pre)
         except SimAbort as e:
             res["exc"] = e
